@@ -687,6 +687,85 @@ w('C15', 'new writer: SetBridgeInfo wipes the host validator set', 'C15.R5',
 w('C15', 'BENIGN: commit-flag test hoisted and power looked up afterwards', '',
   (LU, '\t\t// Only check + include power if the vote is a commit vote. There must be super-majority, otherwise the\n\t\t// previous block (the block vote is for) could not have been committed.\n\t\tif vote.BlockIdFlag != cmtproto.BlockIDFlagCommit {\n\t\t\tcontinue\n\t\t}\n', '\t\tisCommit := vote.BlockIdFlag == cmtproto.BlockIDFlagCommit\n\t\tif !isCommit {\n\t\t\tcontinue\n\t\t}\n'))
 
+
+# ---------------- C18
+w('C18', 'removals emitted while ranging over the last map (no sort)', 'C18.R1',
+  (VS, '\tnoLongerBonded, err := sortNoLongerBonded(last, k.validatorAddressCodec)\n\tif err != nil {\n\t\treturn nil, err\n\t}\n\n\tfor _, valAddrBytes := range noLongerBonded {', '\tvar noLongerBonded [][]byte\n\tfor valAddrStr := range last {\n\t\tb, err := k.validatorAddressCodec.StringToBytes(valAddrStr)\n\t\tif err != nil {\n\t\t\treturn nil, err\n\t\t}\n\t\tnoLongerBonded = append(noLongerBonded, b)\n\t}\n\n\tfor _, valAddrBytes := range noLongerBonded {'))
+w('C18', 'sortNoLongerBonded forgets to sort', 'C18.R1',
+  (VS, '\tsort.SliceStable(noLongerBonded, func(i, j int) bool {\n\t\t// -1 means strictly less than\n\t\treturn bytes.Compare(noLongerBonded[i], noLongerBonded[j]) == -1\n\t})\n', ''),
+  (VS, '\t"bytes"\n', ''),
+  (VS, '\t"sort"\n', ''))
+w('C18', 'events emitted inside a map range over registered plans', 'C18.R1',
+  (AB, '\tsdkCtx := sdk.UnwrapSDKContext(ctx)\n\theight := sdkCtx.BlockHeight()\n', '\tsdkCtx := sdk.UnwrapSDKContext(ctx)\n\theight := sdkCtx.BlockHeight()\n\tfor h := range k.ExecutorChangePlans {\n\t\tsdkCtx.EventManager().EmitEvent(sdk.NewEvent("plan", sdk.NewAttribute("height", fmt.Sprint(h))))\n\t}\n'),
+  (AB, 'import (\n\t"context"\n', 'import (\n\t"context"\n\t"fmt"\n'))
+w('C18', 'time.Now() written into an event', 'C18.R2',
+  (HM, '\t\t\tsdk.NewAttribute(types.AttributeKeySubmitter, req.Submitter),\n', '\t\t\tsdk.NewAttribute(types.AttributeKeySubmitter, req.Submitter),\n\t\t\tsdk.NewAttribute("at", time.Now().String()),\n'),
+  (HM, '\t"strconv"\n', '\t"strconv"\n\t"time"\n'))
+w('C18', 'random tie-break in the validator sort', 'C18.R2',
+  (VS, '\t\treturn bytes.Compare(noLongerBonded[i], noLongerBonded[j]) == -1\n', '\t\tif bytes.Equal(noLongerBonded[i], noLongerBonded[j]) {\n\t\t\treturn rand.Intn(2) == 0\n\t\t}\n\t\treturn bytes.Compare(noLongerBonded[i], noLongerBonded[j]) == -1\n'),
+  (VS, '\t"errors"\n', '\t"errors"\n\t"math/rand"\n'))
+w('C18', 'package-level counter incremented in a handler', 'C18.R3',
+  (HM, 'type MsgServer struct {\n\tKeeper\n}\n', 'type MsgServer struct {\n\tKeeper\n}\n\nvar batchesSeen uint64\n'),
+  (HM, '\tsdk.UnwrapSDKContext(ctx).EventManager().EmitEvent(\n\t\tsdk.NewEvent(\n\t\t\ttypes.EventTypeRecordBatch,', '\tbatchesSeen++\n\tsdk.UnwrapSDKContext(ctx).EventManager().EmitEvent(\n\t\tsdk.NewEvent(\n\t\t\ttypes.EventTypeRecordBatch,'))
+w('C18', 'in-memory plan map mutated by a message handler', 'C18.R3',
+  (CM, '\t// config check\n', '\tms.ExecutorChangePlans[req.Height] = types.ExecutorChangePlan{Height: req.Height}\n\t// config check\n'))
+w('C18', 'goroutine spawned in EndBlocker', 'C18.R2',
+  (AB, '\tsdkCtx := sdk.UnwrapSDKContext(ctx)\n\theight := sdkCtx.BlockHeight()\n', '\tsdkCtx := sdk.UnwrapSDKContext(ctx)\n\theight := sdkCtx.BlockHeight()\n\tgo func() { _ = k.Logger(ctx) }()\n'))
+w('C18', 'raw KV store iteration bypassing collections', 'C18.R4',
+  ('x/ophost/keeper/keeper.go', 'func (k Keeper) GetAuthority() string {', 'func (k Keeper) RawHas(ctx context.Context, key []byte) bool {\n\tok, _ := k.storeService.OpenKVStore(ctx).Has(key)\n\treturn ok\n}\n\nfunc (k Keeper) GetAuthority() string {'))
+w('C18', 'validator sort compares by length only (partial order)', 'C18.R5',
+  (VS, '\t\treturn bytes.Compare(noLongerBonded[i], noLongerBonded[j]) == -1\n', '\t\treturn len(noLongerBonded[i]) < len(noLongerBonded[j])\n'),
+  (VS, '\t"bytes"\n', ''))
+w('C18', 'float arithmetic in the fee computation', 'C18.R2',
+  (FU, '\t\t\tfee := gp.Amount.MulInt(math.NewIntFromUint64(gas))\n', '\t\t\tfee := gp.Amount.MulInt(math.NewIntFromUint64(uint64(float64(gas) * 1.0)))\n'))
+w('C18', 'BENIGN: telemetry clock read stays in EndBlocker; sort uses bytes.Compare < 0', '',
+  (VS, '\t\treturn bytes.Compare(noLongerBonded[i], noLongerBonded[j]) == -1\n', '\t\treturn bytes.Compare(noLongerBonded[i], noLongerBonded[j]) < 0\n'))
+
+
+HG='x/ophost/keeper/genesis.go'
+CG='x/opchild/keeper/genesis.go'
+HTG='x/ophost/types/genesis.go'
+# ---------------- C16
+w('C16', 'TokenPairs omitted from the exported Bridge', 'C16.R2',
+  (HG, '\t\t\tTokenPairs:        tokenPairs,\n', ''),
+  (HG, '\t\tvar tokenPairs []types.TokenPair\n', '\t\tvar tokenPairs []types.TokenPair\n\t\t_ = tokenPairs\n'))
+w('C16', 'import stores proposals under a loop counter instead of OutputIndex', 'C16.R3',
+  (HG, '\t\tfor _, proposal := range bridge.Proposals {\n\t\t\tif err := k.SetOutputProposal(ctx, bridgeId, proposal.OutputIndex, proposal.OutputProposal); err != nil {', '\t\tfor i, proposal := range bridge.Proposals {\n\t\t\tif err := k.SetOutputProposal(ctx, bridgeId, uint64(i+1), proposal.OutputProposal); err != nil {'))
+w('C16', 'opchild import skips SetNextL2Sequence', 'C16.R3',
+  (CG, '\tif err := k.SetNextL2Sequence(ctx, data.NextL2Sequence); err != nil {\n\t\tpanic(err)\n\t}\n', ''))
+w('C16', 'ophost import never restores claim records', 'C16.R1',
+  (HG, '\t\tfor _, provenWithdrawal := range bridge.ProvenWithdrawals {\n\t\t\twithdrawalHash := [32]byte{}\n\t\t\tcopy(withdrawalHash[:], provenWithdrawal)\n\t\t\tif err := k.RecordProvenWithdrawal(ctx, bridgeId, withdrawalHash); err != nil {\n\t\t\t\tpanic(err)\n\t\t\t}\n\t\t}\n', ''))
+w('C16', 'ophost export skips the batch info history', 'C16.R1',
+  (HG, '\t\tvar batchInfos []types.BatchInfoWithOutput\n\t\tif err := k.IterateBatchInfos(ctx, bridgeId, func(key collections.Pair[uint64, uint64], batchInfo types.BatchInfoWithOutput) (stop bool, err error) {\n\t\t\tbatchInfos = append(batchInfos, batchInfo)\n\t\t\treturn false, nil\n\t\t}); err != nil {\n\t\t\treturn true, err\n\t\t}\n', '\t\tvar batchInfos []types.BatchInfoWithOutput\n'))
+w('C16', 'token pair imported with swapped denoms', 'C16.R3',
+  (HG, 'k.SetTokenPair(ctx, bridgeId, tokenPair.L2Denom, tokenPair.L1Denom)', 'k.SetTokenPair(ctx, bridgeId, tokenPair.L1Denom, tokenPair.L2Denom)'))
+w('C16', 'next L1 sequence imported from NextOutputIndex', 'C16.R3',
+  (HG, 'k.SetNextL1Sequence(ctx, bridgeId, bridge.NextL1Sequence)', 'k.SetNextL1Sequence(ctx, bridgeId, bridge.NextOutputIndex)'))
+w('C16', 'proposals of every bridge imported under the first bridge id', 'C16.R3',
+  (HG, 'k.SetOutputProposal(ctx, bridgeId, proposal.OutputIndex, proposal.OutputProposal)', 'k.SetOutputProposal(ctx, data.Bridges[0].BridgeId, proposal.OutputIndex, proposal.OutputProposal)'))
+w('C16', 'exported proposals lose their index (OutputIndex unset)', 'C16.R2',
+  (HG, '\t\t\t\tOutputIndex:    key.K2(),\n', ''))
+w('C16', 'outputs exported in descending order', 'C16.R2',
+  (HG, 'if err := k.IterateOutputProposals(ctx, bridgeId, func(key collections.Pair[uint64, uint64], output types.Output) (stop bool, err error) {', 'if err := k.ReverseIterateOutputProposals(ctx, bridgeId, func(key collections.Pair[uint64, uint64], output types.Output) (stop bool, err error) {'))
+w('C16', 'opchild export forgets the Exported flag', 'C16.R2',
+  (CG, '\t\tExported:            true,\n', ''))
+w('C16', 'opchild export swaps denom and base denom', 'C16.R2',
+  (CG, 'types.DenomPair{Denom: denom, BaseDenom: baseDenom}', 'types.DenomPair{Denom: baseDenom, BaseDenom: denom}'))
+w('C16', 'opchild import does not rebuild the consensus-key index', 'C16.R1',
+  (CG, '\t\t// Manually set indices for the first time\n\t\tif err := k.SetValidatorByConsAddr(ctx, validator); err != nil {\n\t\t\tpanic(err)\n\t\t}\n', ''))
+w('C16', 'opchild export drops denom pairs', 'C16.R1',
+  (CG, '\tvar denomPairs []types.DenomPair\n\terr = k.DenomPairs.Walk(ctx, nil, func(denom, baseDenom string) (stop bool, err error) {\n\t\tdenomPairs = append(denomPairs, types.DenomPair{Denom: denom, BaseDenom: baseDenom})\n\t\treturn false, nil\n\t})\n\tif err != nil {\n\t\tpanic(err)\n\t}\n', '\tvar denomPairs []types.DenomPair\n'))
+w('C16', 'ValidateGenesis stops checking claim hash length', 'C16.R5',
+  (HTG, '\t\t\tif len(withdrawalHash) != 32 {\n\t\t\t\treturn ErrInvalidHashLength\n\t\t\t}', '\t\t\t_ = withdrawalHash'))
+w('C16', 'ValidateGenesis accepts bridge id 0', 'C16.R5',
+  (HTG, '\t\tif bridge.BridgeId == 0 {\n\t\t\treturn ErrInvalidBridgeId\n\t\t}\n', ''))
+w('C16', 'module ValidateGenesis ignores the validation result', 'C16.R5',
+  ('x/ophost/module.go', '\treturn types.ValidateGenesis(&genState, b.cdc.InterfaceRegistry().SigningContext().AddressCodec())', '\t_ = types.ValidateGenesis(&genState, b.cdc.InterfaceRegistry().SigningContext().AddressCodec())\n\treturn nil'))
+w('C16', '(repaired tree) deposits to unknown bridges create state export cannot see', 'C16.R4',
+  (HM, '\tif _, err := ms.GetBridgeConfig(ctx, bridgeId); err != nil {\n\t\treturn nil, err\n\t}\n\n\tl1Sequence', '\tl1Sequence'))
+w('C16', 'BENIGN: import loop uses an index variable', '',
+  (HG, '\t\tfor _, tokenPair := range bridge.TokenPairs {\n\t\t\tif err := k.SetTokenPair(ctx, bridgeId, tokenPair.L2Denom, tokenPair.L1Denom); err != nil {', '\t\tfor i := 0; i < len(bridge.TokenPairs); i++ {\n\t\t\ttokenPair := bridge.TokenPairs[i]\n\t\t\tif err := k.SetTokenPair(ctx, bridgeId, tokenPair.L2Denom, tokenPair.L1Denom); err != nil {'))
+
 #@@MORE@@
 for p,l in W.items():
     json.dump(l, open(os.path.join(HERE,p+'.json'),'w'), indent=1)
